@@ -371,11 +371,22 @@ public:
   HttpClient &operator=(HttpClient &&) = delete;
 
   /// \brief Set TLS configuration
+  /// \note The TLS settings are applied ONCE, when the transport is created (by
+  /// the first request or the first DNS accessor). Call this before that point:
+  /// a later call that would change the settings throws std::logic_error
+  /// instead of being silently ignored (e.g. leaving verifyPeer off).
   void setTlsConfig(const TlsConfig &config)
   {
     std::lock_guard<std::mutex> lock(_mutex);
+    if (_transport &&
+        (config.verifyPeer != _tlsConfig.verifyPeer || config.caFile != _tlsConfig.caFile ||
+         config.clientCertFile != _tlsConfig.clientCertFile ||
+         config.clientKeyFile != _tlsConfig.clientKeyFile))
+    {
+      throw std::logic_error("HttpClient::setTlsConfig: the transport is already initialised; "
+                             "TLS settings cannot be changed after the first request");
+    }
     _tlsConfig = config;
-    // TLS config is applied per-connection during connect
   }
 
   /// \brief Set DNS servers for domain resolution
